@@ -80,17 +80,18 @@ func ZZ_C12_Contract() {
 }
 
 type zzSnapshot struct {
-	balance  int64
-	reserved int64
-	reqNum   uint32
-	nCdr     int
-	nRecords int
-	nUsage   int
-	dbWrites int
+	notifyUri string
+	balance   int64
+	reserved  int64
+	reqNum    uint32
+	nCdr      int
+	nRecords  int
+	nUsage    int
+	dbWrites  int
 }
 
 func zzSnap(ue *chf_context.ChfUe, rg int32) zzSnapshot {
-	s := zzSnapshot{balance: zzBalance(zzSupi, rg), reserved: ue.ReservedQuota[rg], reqNum: ue.AcctRequestNum[rg], nCdr: len(ue.Cdr), nRecords: len(ue.Records), dbWrites: vx.DBWrites()}
+	s := zzSnapshot{notifyUri: ue.NotifyUri, balance: zzBalance(zzSupi, rg), reserved: ue.ReservedQuota[rg], reqNum: ue.AcctRequestNum[rg], nCdr: len(ue.Cdr), nRecords: len(ue.Records), dbWrites: vx.DBWrites()}
 	for _, r := range ue.Records {
 		if r != nil && r.ChargingFunctionRecord != nil {
 			s.nUsage += len(r.ChargingFunctionRecord.ListOfMultipleUnitUsage)
@@ -124,6 +125,9 @@ func ZZ_C12_Rejections() {
 	zzSmallUsage(&usage)
 	req := models.ChfConvergedChargingChargingDataRequest{InvocationSequenceNumber: vx.Int32("seq"),
 		MultipleUnitUsage: []models.ChfConvergedChargingMultipleUnitUsage{usage}}
+	if vx.Choice("carriesNotifyUri", 2) == 1 {
+		req.NotifyUri = "http://elsewhere.example/" + vx.String("otherNotify", 1)
+	}
 	badRef := ref
 	switch vx.Choice("what", 2) {
 	case 0: // unknown subscriber
@@ -144,6 +148,7 @@ func ZZ_C12_Rejections() {
 	vx.Assert("no account debit or refund", after.balance == before.balance && after.dbWrites == before.dbWrites)
 	vx.Assert("no reservation change", after.reserved == before.reserved && after.reqNum == before.reqNum)
 	vx.Assert("no record change", after.nCdr == before.nCdr && after.nRecords == before.nRecords && after.nUsage == before.nUsage)
+	vx.Assert("registered notification URI unchanged", after.notifyUri == before.notifyUri)
 }
 
 // C12 (c): a recharge for a known subscriber sends exactly one
